@@ -9,7 +9,8 @@ RULE = ("ELF64/x86-64 and ELF32/i386 objects written by the harness (1-4 executa
         "disassembled by the installed objdump -d -M att; that text is fed through the assembly route of MasterOfPuppets "
         "(all_instructions_string) and the decoded stream is compared with R-line, an independent reader of objdump text: "
         "same number of records as instruction lines, same order, same address, mnemonic equal to the line's mnemonic token "
-        "(modulo the prefix tolerance of DESIGN 3.2); byte-continuation lines, labels, headers contribute nothing; no "
+        "(the first token that is not a prefix, alone or with its prefixes; the reading 'first prefix token = mnemonic' is the open "
+        "finding prefix_token_read_as_mnemonic); one matcher object reused on a second listing builds the same stream as a fresh one; byte-continuation lines, labels, headers contribute nothing; no "
         "exception. Plus every listing under tests/assembly. Non-trivial/distinct = distinct line shapes (prefixes + "
         "mnemonic + operand-shape signature) that went through both readers.")
 FLOOR = {"quick": 300, "thorough": 1500}
@@ -34,7 +35,7 @@ def culprit_lines(ws, text):
 
 
 def classify_line(raw: str):
-    """Syntactic class of an offending line -> open-finding key (none listed at present)."""
+    """Syntactic class of a line that makes the parser RAISE -> open-finding key (none listed at present)."""
     return None
 
 
@@ -47,7 +48,7 @@ def failing_run(ctx, ws):
     ctx.event("preceding_failed_runs" if r[0] == "exc" else "preceding_runs_did_not_fail")
 
 
-def judge_listing(ctx, ws, text, origin, elf_bytes=None):
+def judge_listing(ctx, ws, text, origin, elf_bytes=None, force_reuse=False):
     if ctx.rng.random() < 0.25:
         failing_run(ctx, ws)
     p = ws.write("in.s", text)
@@ -69,11 +70,29 @@ def judge_listing(ctx, ws, text, origin, elf_bytes=None):
         return
     probs, rinsts, dec = objd.compare_stream(r[1], text)
     ctx.event("listings_compared")
-    if probs:
-        kind, n, msg = probs[0]
+    unknown = False
+    for pr in probs:
+        kind, n, msg = pr[:3]
+        key = pr[3] if len(pr) > 3 else None
         small = {"origin": origin, "listing": "\n".join(x.raw for x in rinsts[max(0, n - 2):n + 3]) + "\n"} if kind != "undecodable" and n >= 0 else case
-        ctx.disagreement(small, f"{kind}: {msg}", classify_line(rinsts[n].raw) if 0 <= n < len(rinsts) else None)
+        if key:
+            small = {"origin": origin, "listing": rinsts[n].raw + "\n"}
+        ctx.disagreement(small, f"{kind}: {msg}", key)
+        unknown = unknown or key is None
+    if unknown:
         return
+    # one matcher object used on ANOTHER listing first: the stream built for this listing afterwards is the same
+    if (force_reuse or ctx.rng.random() < 0.3) and len(text) < 400000:
+        other = ws.write("prev.s", "  401000:\t55                   \tpush   %rbp\n  401001:\t48 89 e5             \tmov    %rsp,%rbp\n  401004:\tc3                   \tret\n")
+        rs = real.match_sequence(ws.write("_stream_rule.yaml", "pattern:\n  - zzzzzz\n"), [other, p], ret="stream")
+        ctx.ran(2)
+        ctx.event("matcher_reused_on_second_listing")
+        if rs[0] != "ok" or rs[1][1] != r[1]:
+            got = rs[1][1] if rs[0] == "ok" else str(rs[1:])
+            ctx.disagreement({"origin": origin, "reuse": True, "listing": text if len(text) < 200000 else text[:200000]},
+                             f"one MasterOfPuppets object used on a 3-line listing and then on this one builds a stream of {got.count('|')} records; "
+                             f"a fresh object builds {r[1].count('|')} ({got[:80]!r} vs {r[1][:80]!r})")
+            return
     # the same listing under a rule that configures valid_addr_range (adds an observer): lines -> records must be unchanged
     lo, hi = ctx.rng.choice([("0", "ffffffffffffffff"), ("0x400000", "0x4fffff"), ("1000", "1000")])
     r2 = objd.real_stream(ws, p, rule_text=f"config:\n  valid_addr_range:\n    min: '{lo}'\n    max: '{hi}'\npattern:\n  - zzzzzz\n")
@@ -84,8 +103,9 @@ def judge_listing(ctx, ws, text, origin, elf_bytes=None):
     else:
         probs2, _, dec2 = objd.compare_stream(r2[1], text)
         ctx.event("listings_compared_with_range_observer")
+        probs2 = [q for q in probs2 if len(q) < 4 or q[3] is None]        # the open finding was reported above already
         if probs2:
-            kind, n, msg = probs2[0]
+            kind, n, msg = probs2[0][:3]
             ctx.disagreement(case if n < 0 else {"origin": origin, "range": [lo, hi], "listing": "\n".join(x.raw for x in rinsts[max(0, n - 3):n + 3]) + "\n"},
                              f"with valid_addr_range configured: {kind}: {msg}")
             return
@@ -122,4 +142,4 @@ def run_shard(ctx):
 
 def replay(ctx, case):
     ws = real.Workspace()
-    judge_listing(ctx, ws, case["listing"], case.get("origin", "replay"))
+    judge_listing(ctx, ws, case["listing"], case.get("origin", "replay"), force_reuse=bool(case.get("reuse")))
